@@ -13,7 +13,7 @@
    the closed output.  Stuck-freedom / leak-freedom is therefore proved for the clean family (`_partial`) and
    tested by exhaustive exploration for small configurations with cancels / context / single panics (Tests.v). *)
 From Coq Require Import Permutation.
-From God Require Import Base.Prelude C07.Model C07.ProofsA C07.ProofsB C07.ProofsC C07.Proofs C07.Explore C07.Tests.
+From God Require Import Base.Prelude C07.Model C07.ProofsA C07.ProofsB C07.ProofsC C07.ProofsD C07.Proofs C07.Explore C07.Tests.
 
 (* ---- conservation: nothing is duplicated or invented, for every schedule ---- *)
 Theorem c07_conservation : forall cf s, reachable cf s ->
@@ -86,6 +86,22 @@ Theorem c07_double_write_panics_caller : forall cf s o k1 k2 rest, reachable cf 
 Proof. intros cf s o k1 k2 rest R C NP W H. rewrite (clean_result cf s o R C NP H), W. reflexivity. Qed.
 Print Assumptions c07_double_write_panics_caller.
 
+(* ---- cancel(err) makes the call return that error, as a function: reducers that never write (MapReduceVoid,
+   Finish, or a MapReduce reducer that only consumes), no ctx, no panic: the outcome is the error of the FIRST
+   cancel call through the once (nil |-> ErrCancelWithNil by c07_cancel_nil), ErrReduceNoOutput if nobody cancelled.
+   (With a writing reducer a value handed over before the cancel may be returned instead: see c07_result.) ---- *)
+Theorem c07_cancel_result : forall cf s o, reachable cf s -> ctxd s = false -> wrote s = false ->
+  writes (rafter cf) = [] -> c s = CDone o ->
+  o = match rev (ccalls s) with e :: _ => OErr e | [] => ONoOutput end.
+Proof.
+  intros cf s o R Hc Hw Hn Hd.
+  destruct (rev (ccalls s)) as [|e rest] eqn:E.
+  - apply (no_cancel_no_output cf s o R Hc Hw Hn Hd). destruct (ccalls s) as [|a l]; [reflexivity|].
+    simpl in E. destruct (rev l); discriminate.
+  - exact (cancel_returns_first_error cf s o R Hc Hw Hn Hd e rest E).
+Qed.
+Print Assumptions c07_cancel_result.
+
 (* variants by instantiation: MapReduceVoid (reducer cannot write; ErrReduceNoOutput |-> nil) and Finish (items =
    the functions, a failing function = a mapper that cancels, reducer returns at once, workers = number of items):
    in the clean case the underlying MapReduce ends with ErrReduceNoOutput, which both wrappers turn into nil.
@@ -150,7 +166,8 @@ Proof. destruct w2_write_then_panic_hangs as [s H]. exists cf_w2, sched_w2, s. e
 Print Assumptions c07_returns_refuted.
 
 (* guardedWriter's check-then-send is not atomic: finish() between the two makes the reducer's send panic
-   ("send on closed channel"), after the caller has returned: reducer goroutine left behind. Model-level witness. *)
+   ("send on closed channel"), after the caller has returned: reducer goroutine left behind.  Replayed on the Go
+   code by stress (one cancelling mapper, reducer writes at once): 13 of 30000 runs (8 leaks, 5 re-raised panics). *)
 Theorem c07_send_on_closed_refuted : exists cf ls s,
   run cf (init cf) ls = Some s /\ c s = CDone (OErr (EUser 5)) /\ r s = RPSend PSendClosed /\ g s = GDone /\
   (forall l, l <> LEnv -> step cf s l = None).
@@ -204,6 +221,6 @@ Example c07_no_stuck_test_small :
   explore_ok cf_t7 false is_panic fuel = true /\ explore_ok cf_t7g false is_panic fuel = true /\
   explore_ok cf_t8 false is_panic fuel = true.
 Proof.
-  repeat split; [exact test_cancel_waitret|exact test_double_cancel|exact test_ctx_any_time|exact test_ctx_pre_cancel|
-                 exact test_panics_reraised|exact test_generator_panic_reraised|exact test_reducer_panic].
+  exact (conj test_cancel_waitret (conj test_double_cancel (conj test_ctx_any_time (conj test_ctx_pre_cancel
+        (conj test_panics_reraised (conj test_generator_panic_reraised test_reducer_panic)))))).
 Qed.
